@@ -254,6 +254,10 @@ fn canonical(mut v: Value) -> Value {
         }
         cm["macros"] = json!({"count": macros.len()});
     }
+    // (3) the allocator's array table is a HashMap written as a list of pairs
+    if let Some(a) = v.get_mut("state").and_then(|s| s.get_mut("alloc")).and_then(|s| s.get_mut("array_refs")).and_then(|s| s.as_array_mut()) {
+        a.sort_by_key(|x| x.to_string());
+    }
     if let Some(ss) = v.get_mut("save_stack").and_then(|s| s.as_array_mut()) {
         for level in ss.iter_mut() {
             if let Some(o) = level.as_object_mut() {
